@@ -79,20 +79,29 @@ func runLemma(eng *Engine, sv *Solver, lm *Lemma) (out []*lemmaResult) {
 			env.vars[ff[0]] = val
 			c.addModelVars(ff[0], val)
 		}
-		for _, a := range lm.Assumes {
-			c.assume(s, env.evalBool(a.Expr))
-		}
-		c.reach(s, "reach", "hyp", "lemma hypotheses satisfiable")
-		for i, st := range lm.Calls {
-			c.lemmaStep(s, env, st.Text, i)
-		}
-		for i, sh := range lm.Shows {
-			lb := sh.Label
-			if lb == "" {
-				lb = fmt.Sprintf("%d", i)
+		reached := false
+		nshow, nstep := 0, 0
+		for _, it := range lm.Items {
+			switch it.Kind {
+			case "assume":
+				c.assume(s, env.evalBool(it.Cl.Expr))
+			case "step":
+				if !reached {
+					c.reach(s, "reach", "hyp", "lemma hypotheses satisfiable")
+					reached = true
+				}
+				c.lemmaStep(s, env, it.Cl.Text, nstep)
+				nstep++
+			case "show":
+				lb := it.Cl.Label
+				if lb == "" {
+					lb = fmt.Sprintf("%d", nshow)
+				}
+				nshow++
+				c.oblige(s, "show", lb, env.evalBool(it.Cl.Expr), it.Cl.Text, token.NoPos)
 			}
-			c.oblige(s, "show", lb, env.evalBool(sh.Expr), sh.Text, token.NoPos)
 		}
+		c.reach(s, "reach", "end", "lemma hypotheses and steps satisfiable")
 	}()
 	if perr != "" {
 		return failed(perr)
